@@ -126,6 +126,7 @@ impl St {
 }
 
 pub struct Params {
+    pub second: Option<(f64, f64, f64)>,
     pub len: f64,
     pub ratio: f64,
     pub angle: f64,
@@ -165,6 +166,14 @@ fn inject<S: serde::Serialize + serde::de::DeserializeOwned>(st: &S, p: &Option<
         v["occupied_sites"][0]["x"] = json!(p.x);
         v["occupied_sites"][0]["y"] = json!(p.y);
         v["occupied_sites"][0]["angle"] = json!(p.phi);
+        if let Some((x2, y2, p2)) = p.second {
+            // a second occupied site of the same Wyckoff position (the library supports several sites)
+            let mut s2 = v["occupied_sites"][0].clone();
+            s2["x"] = json!(x2);
+            s2["y"] = json!(y2);
+            s2["angle"] = json!(p2);
+            v["occupied_sites"].as_array_mut().unwrap().push(s2);
+        }
     }
     serde_json::from_value(v).expect("state from JSON")
 }
@@ -176,7 +185,7 @@ pub fn build(spec: &Spec) -> St {
     let parts: Vec<&str> = shape.split(':').collect();
     let lj = spec.get_or("kind", "hard") == "lj";
     let p = if spec.kv.contains_key("len") {
-        Some(Params { len: spec.f("len"), ratio: spec.f("ratio"), angle: spec.f("angle"), x: spec.f("x"), y: spec.f("y"), phi: spec.f("phi") })
+        Some(Params { second: if spec.kv.contains_key("x2") { Some((spec.f("x2"), spec.f("y2"), spec.f("phi2"))) } else { None }, len: spec.f("len"), ratio: spec.f("ratio"), angle: spec.f("angle"), x: spec.f("x"), y: spec.f("y"), phi: spec.f("phi") })
     } else {
         None
     };
@@ -501,6 +510,44 @@ pub fn run_state_case(spec: &Spec, out: &mut dyn Write) -> GeomOut {
         if want == "Orthorhombic" && spec.kv.contains_key("opt") && angle != std::f64::consts::FRAC_PI_2 {
             add(&mut f, "C04,C08", format!("optimisation changed the cell angle of the rectangular group {} to {:?}", group, angle));
         }
+        // C08: after optimisation (possibly several chained stages) every parameter is within the range
+        // declared for the state the chain started from, and the score is defined and finite
+        if spec.kv.contains_key("opt") && !spec.kv.contains_key("len") {
+            let mut s0 = spec.clone();
+            s0.kv.remove("opt");
+            if let Ok(init) = catch_unwind(AssertUnwindSafe(|| build(&s0))) {
+                let j0 = init.json();
+                let g = |v: &Value, a: &str, b: &str| -> f64 { v[a][b].as_f64().unwrap_or(f64::NAN) };
+                let (l0, l1) = (g(&j0, "cell", "length"), g(&js, "cell", "length"));
+                let (r0, r1) = (g(&j0, "cell", "ratio"), g(&js, "cell", "ratio"));
+                let (a0, a1) = (g(&j0, "cell", "angle"), g(&js, "cell", "angle"));
+                if !(l1 >= 0.01 && l1 <= l0) {
+                    add(&mut f, "C08", format!("cell length {:?} outside [0.01, {:?}] after optimisation", l1, l0));
+                }
+                if !(r1 >= 0.1 && r1 <= r0) {
+                    add(&mut f, "C08", format!("side ratio {:?} outside [0.1, {:?}] after optimisation", r1, r0));
+                }
+                if want == "Monoclinic" {
+                    if !(a1 >= PI / 6. && a1 <= PI / 2.) {
+                        add(&mut f, "C08", format!("cell angle {:?} outside [pi/6, pi/2] after optimisation", a1));
+                    }
+                } else if a1.to_bits() != a0.to_bits() {
+                    add(&mut f, "C08", format!("cell angle of a rectangular group changed from {:?} to {:?}", a0, a1));
+                }
+                let st1 = &js["occupied_sites"][0];
+                let (x1, y1, p1) = (st1["x"].as_f64().unwrap_or(f64::NAN), st1["y"].as_f64().unwrap_or(f64::NAN), st1["angle"].as_f64().unwrap_or(f64::NAN));
+                if !(x1 >= -0.5 && x1 <= 0.5 && y1 >= -0.5 && y1 <= 0.5) {
+                    add(&mut f, "C08", format!("site coordinates ({:?}, {:?}) outside [-1/2,1/2]^2 after optimisation", x1, y1));
+                }
+                if !(p1 >= 0. && p1 <= 2. * PI) {
+                    add(&mut f, "C08", format!("site orientation {:?} outside [0, 2 pi] after optimisation", p1));
+                }
+                match st.score() {
+                    Some(sc) if sc.is_finite() => {}
+                    other => add(&mut f, "C08", format!("the optimised state has score {:?}", other)),
+                }
+            }
+        }
         let wname = js["wallpaper"]["name"].as_str().unwrap_or("?");
         if wname != group {
             add(&mut f, "C10", format!("a structure built for {} is labelled {}", group, wname));
@@ -552,9 +599,14 @@ pub fn run_state_case(spec: &Spec, out: &mut dyn Write) -> GeomOut {
             None
         }
     };
-    let n = syms.len();
+    let multi = js["occupied_sites"].as_array().map(|a| a.len()).unwrap_or(1) > 1;
+    let n = if multi { st.total() } else { syms.len() };
 
     writeln!(out, "K {}", spec.text).unwrap();
+    if multi {
+        // several sites: outside the single-site model; only the monitors speak
+        writeln!(out, "N").unwrap();
+    }
     writeln!(out, "Y {}", n).unwrap();
     for s in syms.iter() {
         writeln!(out, "S {}", hex9(s)).unwrap();
@@ -603,12 +655,12 @@ pub fn run_state_case(spec: &Spec, out: &mut dyn Write) -> GeomOut {
     let finite_cell = a.is_finite() && b.is_finite() && sn.is_finite();
     // ---------------- C15: the site's copies
     let ops = ita(group);
-    if rel.len() != ops.len() {
+    if rel.len() != ops.len() && !multi {
         add(&mut f, "C15", format!("{} placements for a site of group {} (order {})", rel.len(), group, ops.len()));
     }
     let (cphi, sphi) = (phi.cos(), phi.sin());
     let finite_site = sx.is_finite() && sy.is_finite() && phi.is_finite();
-    if finite_site {
+    if finite_site && !multi {
         for (kk, (m, (l, t))) in rel.iter().zip(ops.iter()).enumerate() {
             let (fx, fy) = (m[2], m[5]);
             if !(fx >= -0.5 && fx < 0.5 && fy >= -0.5 && fy < 0.5) {
@@ -889,6 +941,10 @@ pub fn run_state_case(spec: &Spec, out: &mut dyn Write) -> GeomOut {
                     let wrapc = |v: f64| -> f64 { let w = v + 0.5; let w = w - w.floor(); w - 0.5 };
                     s2.kv.insert("x".into(), fmt_f(wrapc(sx + hx)));
                     s2.kv.insert("y".into(), fmt_f(wrapc(sy + hy)));
+                    if spec.kv.contains_key("x2") {
+                        s2.kv.insert("x2".into(), fmt_f(wrapc(spec.f("x2") + hx)));
+                        s2.kv.insert("y2".into(), fmt_f(wrapc(spec.f("y2") + hy)));
+                    }
                     if let Ok(st2) = catch_unwind(AssertUnwindSafe(|| build(&s2))) {
                         if let (Some(s1), Some(s2v)) = (score, st2.score()) {
                             // the allowed difference: rounding, plus (uncut potential) the truncation error
